@@ -4,6 +4,7 @@ import (
 	"fmt"
 	"strings"
 
+	"github.com/0xReLogic/Helios/verifharness/lab"
 	"pgregory.net/rapid"
 )
 
@@ -43,7 +44,16 @@ type Cfg struct {
 	Passive     bool   `json:"passive_checks"`
 	Active      bool   `json:"active_checks"`
 	Plugins     bool   `json:"plugin_chain"` // logging + size_limit + gzip + headers
+	// only set by the two directed sub-checks (omitted from the JSON of ordinary cases)
+	BreakerMaxRequestsUnset bool `json:"breaker_max_requests_unset,omitempty"`  // max_requests left out of the YAML (runtime default = success_threshold)
+	PassiveThreshold        int  `json:"passive_unhealthy_threshold,omitempty"` // 0 = 2
+	// FaultyEntries > 1 lists the FAULTY server under that many backend names (faulty, faulty2, ...): each entry
+	// has its own health state and unhealthy window, so there are that many more window expiries per second
+	FaultyEntries int `json:"faulty_backend_entries,omitempty"`
 }
+
+// backends is the number of configured backend entries.
+func (c Cfg) backends() int { return 1 + max(1, c.FaultyEntries) }
 
 // Step is one fault step: the fault is offered as a burst of requests, one after the other
 // (Concurrent == 0: 2 x backends = 4 requests) or all at once (Concurrent = 2..8 requests).
@@ -53,9 +63,20 @@ type Step struct {
 }
 
 // Case is what is executed, recorded and replayed.
+//
+// Kind "" is a fault sequence (Steps). Kind "breaker-trial": Opening fault until the breaker is open,
+// wait breaker timeout + 0.2 s, then ONE request carrying Steps[0].Fault (the half-open trial).
+// Kind "window-expiry": FAULTY answers 5xx to everything while Clients keep-alive clients send
+// requests in a tight loop for Seconds, so that requests arrive at the instants unhealthy windows expire.
 type Case struct {
-	Cfg   Cfg    `json:"cfg"`
-	Steps []Step `json:"steps"`
+	Kind    string `json:"kind,omitempty"`
+	Cfg     Cfg    `json:"cfg"`
+	Opening string `json:"opening_fault,omitempty"`
+	Steps   []Step `json:"steps"`
+	Clients int    `json:"clients,omitempty"`
+	Seconds int    `json:"seconds,omitempty"`
+	// FreeRunning of the Clients send back to back on their own; the others send in synchronised volleys
+	FreeRunning int `json:"free_running_clients,omitempty"`
 }
 
 func (c Case) String() string {
@@ -67,11 +88,20 @@ func (c Case) String() string {
 			ss = append(ss, s.Fault+" x4 sequential")
 		}
 	}
+	switch c.Kind {
+	case "breaker-trial":
+		return fmt.Sprintf("breaker-trial %+v: open the breaker with %s, wait timeout+0.2 s, one trial request carrying %s", c.Cfg, c.Opening, c.Steps[0].Fault)
+	case "window-expiry":
+		return fmt.Sprintf("window-expiry %+v: FAULTY answers 5xx, %d keep-alive clients for %d s (%d free-running back to back, %d in synchronised volleys)", c.Cfg, c.Clients, c.Seconds, min(c.FreeRunning, c.Clients), c.Clients-min(c.FreeRunning, c.Clients))
+	}
 	return fmt.Sprintf("%+v steps [%s]", c.Cfg, strings.Join(ss, ", "))
 }
 
 // Nontrivial is the NT rule of the design: >= 2 distinct fault kinds, or >= 1 abort-type fault with the breaker on.
 func (c Case) Nontrivial() bool {
+	if c.Kind != "" {
+		return true // directed cases: a fault on the half-open trial / concurrent traffic across window expiries
+	}
 	kinds := map[string]bool{}
 	abort := false
 	for _, s := range c.Steps {
@@ -121,6 +151,25 @@ func genCase(k int) *rapid.Generator[Case] {
 	})
 }
 
+// genExpiry draws a window-expiry case (the strategy is assigned by the caller).
+func genExpiry() *rapid.Generator[Case] {
+	return rapid.Custom(func(rt *rapid.T) Case {
+		c := Case{Kind: "window-expiry",
+			Cfg: Cfg{FaultyFirst: rapid.Bool().Draw(rt, "faulty_first"), Passive: true, FaultyEntries: rapid.IntRange(8, 32).Draw(rt, "faulty_entries"), PassiveThreshold: rapid.IntRange(1, 2).Draw(rt, "threshold"),
+				Active: rapid.Bool().Draw(rt, "active"), Plugins: rapid.Bool().Draw(rt, "plugins")},
+			Clients: rapid.SampledFrom([]int{8, 16, 24, 32, 48, 64}).Draw(rt, "clients"),
+			Seconds: rapid.IntRange(5, lab.Scale(5, 8)).Draw(rt, "seconds")}
+		// mostly synchronised volleys; sometimes half or all of the clients free-running
+		switch rapid.SampledFrom([]string{"volleys", "volleys", "volleys", "mixed", "mixed", "free"}).Draw(rt, "mode") {
+		case "mixed":
+			c.FreeRunning = c.Clients / 2
+		case "free":
+			c.FreeRunning = c.Clients
+		}
+		return c
+	})
+}
+
 // YAML renders the configuration file of the case.
 func (c Cfg) YAML(proxyPort, adminPort int, goodURL, faultyURL string) string {
 	var b strings.Builder
@@ -130,6 +179,9 @@ func (c Cfg) YAML(proxyPort, adminPort int, goodURL, faultyURL string) string {
 	p("backends:\n")
 	good := fmt.Sprintf("  - name: \"good\"\n    address: %q\n    weight: 1\n", goodURL)
 	faulty := fmt.Sprintf("  - name: \"faulty\"\n    address: %q\n    weight: 1\n", faultyURL)
+	for i := 2; i <= c.FaultyEntries; i++ {
+		faulty += fmt.Sprintf("  - name: \"faulty%d\"\n    address: %q\n    weight: 1\n", i, faultyURL)
+	}
 	if c.FaultyFirst {
 		p("%s%s", faulty, good)
 	} else {
@@ -137,10 +189,18 @@ func (c Cfg) YAML(proxyPort, adminPort int, goodURL, faultyURL string) string {
 	}
 	p("load_balancer:\n  strategy: %q\n", c.Strategy)
 	p("health_checks:\n  active:\n    enabled: %v\n    interval: 2\n    timeout: 1\n    path: \"/healthz\"\n", c.Active)
-	p("  passive:\n    enabled: %v\n    unhealthy_threshold: 2\n    unhealthy_timeout: %d\n", c.Passive, unhealthyFor)
+	thr := c.PassiveThreshold
+	if thr == 0 {
+		thr = 2
+	}
+	p("  passive:\n    enabled: %v\n    unhealthy_threshold: %d\n    unhealthy_timeout: %d\n", c.Passive, thr, unhealthyFor)
 	p("rate_limit:\n  enabled: %v\n  max_tokens: 1000\n  refill_rate_seconds: 1\n", c.Limiter)
 	if c.Breaker > 0 {
-		p("circuit_breaker:\n  enabled: true\n  max_requests: 1\n  interval_seconds: 60\n  timeout_seconds: %d\n  failure_threshold: %d\n  success_threshold: 1\n", cbTimeout, c.Breaker)
+		mr := "  max_requests: 1\n"
+		if c.BreakerMaxRequestsUnset {
+			mr = ""
+		}
+		p("circuit_breaker:\n  enabled: true\n%s  interval_seconds: 60\n  timeout_seconds: %d\n  failure_threshold: %d\n  success_threshold: 1\n", mr, cbTimeout, c.Breaker)
 	} else {
 		p("circuit_breaker:\n  enabled: false\n")
 	}
